@@ -68,7 +68,7 @@ func standardPhases(mons []string, suffix int, thorough bool) []Phase {
 		add("S1 n=3 depth 5 {6 gossip pairs,T0,T1,T2}", s1Items("s1:3:0", 5, 2, mons))
 	}
 	// S3: deviation bounded around fair seeds
-	seeds := []string{scStatic3, scStatic4, scSilent4, scSilent5, scLate4, scJoin3, scLeave4, scJoin2, scTwoLeaves, scJoinLeave, scLaggards7, scLaggards4, scRejoin4, scRefused3, scPart4, scPart5, scDups3, scIrrA, scIrrB, scIrrC, scIrrD, scIrrE, scUnknownItx, scUnheard4, scUnheard4cut, scUnheard7, "badgernode:1:40:" + scStatic4, "badgernode:0:40:" + scJoin3, "badgernode:2:40:" + scLeave4}
+	seeds := []string{scStatic3, scStatic4, scSilent4, scSilent5, scLate4, scJoin3, scLeave4, scJoin2, scTwoLeaves, scJoinLeave, scLaggards7, scLaggards4, scRejoin4, scRefused3, scPart4, scPart5, scDups3, scIrrA, scIrrB, scIrrC, scIrrD, scIrrE, scUnknownItx, scUnheard4, scUnheard4cut, scUnheard7, "staticr:4:56", "staticr:2:40", "later:30:36", "badgernode:1:40:" + scStatic4, "badgernode:0:40:" + scJoin3, "badgernode:2:40:" + scLeave4}
 	var d0 []sched.Item
 	for _, s := range seeds {
 		d0 = append(d0, s3Items(s, 0, nil, nil, mons, suffix)...)
